@@ -107,7 +107,7 @@ func c13Build(c *engine.C, n int, pkgFull bool) c13Model {
 	// relations to a non-project type and self relations
 	ext := "none"
 	if pkgFull {
-		ext = engine.PickTag(c, "external", "none", "extends-external", "field-external", "call-external", "implements-external")
+		ext = engine.PickTag(c, "external", "none", "extends-external", "field-external", "call-external", "implements-external", "two-externals")
 	}
 	switch ext {
 	case "extends-external":
@@ -118,6 +118,10 @@ func c13Build(c *engine.C, n int, pkgFull bool) c13Model {
 		addRel(0, "call", c13Type{"ext", "Lib"}, false)
 	case "implements-external":
 		addRel(0, "implements", c13Type{"ext", "Lib"}, false)
+	case "two-externals":
+		// two relations of one type to library types of different packages
+		addRel(0, "implements", c13Type{"ext", "Lib"}, false)
+		addRel(0, "field", c13Type{"other.lib", "Tool"}, false)
 	}
 	self := "none"
 	if pkgFull {
@@ -313,6 +317,22 @@ func c13Check(m c13Model, filter string, includeSel string) engine.Result {
 			if !upper[e] {
 				res.Violations = append(res.Violations, engine.V("merge-"+mf.name, "edge-extra", "merged edge %s -> %s is not the image of any relation", e.From, e.To))
 			}
+		}
+		// relations that end at a non-node (a library type, the Main class) are outside the statement's graph: their
+		// images may all be kept or all be dropped, but not some of them
+		var optional, kept []string
+		for e := range upper {
+			if !lower[e] {
+				optional = append(optional, e.From+" -> "+e.To)
+				if mgot[e] {
+					kept = append(kept, e.From+" -> "+e.To)
+				}
+			}
+		}
+		if len(kept) > 0 && len(kept) < len(optional) {
+			sort.Strings(optional)
+			sort.Strings(kept)
+			res.Violations = append(res.Violations, engine.V("merge-"+mf.name, "some-non-node-relations-kept-others-dropped", "of the merged relations that end at a non-node, %v are kept and the others of %v are dropped", kept, optional))
 		}
 		// the merged graph as `coca arch -H` / `-P` draws it: every merged node once, every merged edge drawn
 		mdot := "di" + mg.ToMapDot(func(string) bool { return true }).String()
